@@ -63,8 +63,8 @@ CLAIMED = {
     technique='Coq proof (heap invariant by induction over operations) + mutation/identity probes on the implementation',
     design='6 C14'),
  'C05': dict(
-    text='Theorems: for every configuration passing the decidable unambiguity check paths_unambiguousb (each path template factors a string in one way only, earlier templates are separated from the concrete strings of later ones, mappings injective, key orders coherent) and every naturally typed concrete Sid whose values are not "" / "." and contain no "/" or newline, Sid(path=sid.path(c), config=c) is the Sid, the path resolver gives back its type and fields, the reverse check of dict_to_path succeeds, and two such Sids never share a path; the configuration of the run is proved to pass the check (by computation, on every run). Also: the conditional round trip with the resolver answer as explicit hypothesis; one path never yields two Sids; untyped Sids and types without path template have path None; pathlib normalisation is idempotent; the "." / "" value collision (D26) is proved as an example. Differential run + oracle over every concrete Sid of every type in every path configuration (round trip, function, injectivity over the generated set, root-only difference, positional / keyword).',
-    note=TB + 'The unambiguity check is sufficient, not complete (it rejects templates whose literal text has regex-special characters other than ".", relative templates, and placeholder patterns with a star other than the default). "path(c) differs between configurations only by the root" is checked by oracle + correspondence. Both load orders are compared by the configuration translator on every run.',
+    text='Theorems: for every configuration passing the decidable unambiguity check paths_unambiguousb (each path template factors a string in one way only, earlier templates are separated from the concrete strings of later ones, mappings injective, key orders coherent) and every naturally typed concrete Sid whose values are not "" / "." and contain no "/" or newline, Sid(path=sid.path(c), config=c) is the Sid, the path resolver gives back its type and fields, the reverse check of dict_to_path succeeds, and two such Sids never share a path; the configuration of the run is proved to pass the check (by computation, on every run). Also: the conditional round trip with the resolver answer as explicit hypothesis; one path never yields two Sids; untyped Sids and types without path template have path None; under two path configurations that are the same up to the leading literal root the paths of EVERY Sid differ by exactly that prefix (proved for the configurations of the run on every run); pathlib normalisation is idempotent; the "." / "" value collision (D26) is proved as an example. Differential run + oracle over every concrete Sid of every type in every path configuration (round trip, function, injectivity over the generated set, root-only difference, positional / keyword).',
+    note=TB + 'The unambiguity check is sufficient, not complete (it rejects templates whose literal text has regex-special characters other than ".", relative templates, and placeholder patterns with a star other than the default). Both load orders are compared by the configuration translator on every run.',
     technique='Coq proof (unambiguous factorisation of path templates by shape scanning -> full round trip, injectivity, normal forms) + correspondence + oracle',
     design='6 C05'),
  'C06': dict(
@@ -78,8 +78,8 @@ CLAIMED = {
     technique='Coq proof (path pattern globs the path of every matching entity + round trip -> tree search = list search; junk invariance) + finder-agreement oracle on real trees + correspondence',
     design='6 C11'),
  'C15': dict(
-    text='Theorems over the file-system / writer / getter model: create of an existing entity and update of a missing one (or of a Sid without path) raise SpilException (no new state); a read after a write is the overlay of previous data and written values; a write touches only the sidecar of the written entity, so reads of entities with another sidecar are unchanged; paths differing only by the extension share a sidecar. Tie: all histories of <= 2 (thorough 3) operations over a reduced alphabet + random histories, each from an empty real tree, with tree-to-model comparison after every history and a direct oracle (overlay, exists after create of self or descendant).',
-    note=TB + 'Existence through searches relies on the finder model (C11). A new process is not separately started per read (the writer and getter hold no state; sampled by the C13 fresh-process mechanism).',
+    text='Theorems over the file-system / writer / getter model: create of an existing entity and update of a missing one (or of a Sid without path) raise SpilException (no new state); a read after a write is the overlay of previous data and written values; a write touches only the sidecar of the written entity, so reads of entities with another sidecar are unchanged; paths differing only by the extension share a sidecar; "exists exactly from the moment it or a descendant was created" as an invariant by induction over histories of creations from the empty tree (dataset_ok kept by every successful creation passing the decidable guard create_guardb; exists() after any history is true exactly for the created Sids and their ancestors that have a path). Tie: all histories of <= 2 (thorough 3) operations over a reduced alphabet + random histories, each from an empty real tree, with tree-to-model comparison after every history and a direct oracle (overlay, exists after create of self or descendant).',
+    note=TB + 'The history invariant covers creations without data at levels served by the path finder (a sidecar is a hidden file that resolves to a Sid at a level with a free value); the rest of existence-through-search is correspondence + oracle. A new process is not separately started per read (the writer and getter hold no state; sampled by the C13 fresh-process mechanism).',
     technique='Coq proof + exhaustive short histories / random histories against a real tree',
     design='6 C15'),
  'C16': dict(
